@@ -3,6 +3,7 @@ package main
 import (
 	"go/constant"
 	"go/token"
+	"strings"
 
 	"golang.org/x/tools/go/ssa"
 )
@@ -117,8 +118,12 @@ func (p *Prog) splices(fn *ssa.Function) []*spliceSite {
 		mutates := false
 		for _, e := range p.closure(h) {
 			switch e.Kind {
-			case "W", "D", "LEDGER", "EVENT", "FORBIDDEN", "UNRESOLVED":
+			case "W", "D", "EVENT", "FORBIDDEN", "UNRESOLVED":
 				mutates = true
+			case "LEDGER":
+				if !strings.HasSuffix(e.Region, ".GetMintingDenom") && !strings.HasSuffix(e.Region, ".GetBalance") {
+					mutates = true
+				}
 			}
 		}
 		if mutates {
